@@ -15,10 +15,11 @@ type TypeMap struct {
 	cache map[string]string // types.TypeString -> sort
 	busy  map[string]bool
 	structNames map[*types.Struct]string // canonical name per struct (type B A shares A's)
+	heapPkg     map[string]*types.Package // "H.<struct>." prefix -> defining package
 }
 
 func NewTypeMap(d *Decls) *TypeMap {
-	return &TypeMap{d: d, cache: map[string]string{}, busy: map[string]bool{}, structNames: map[*types.Struct]string{}}
+	return &TypeMap{d: d, cache: map[string]string{}, busy: map[string]bool{}, structNames: map[*types.Struct]string{}, heapPkg: map[string]*types.Package{}}
 }
 
 func qual(p *types.Package) string {
@@ -253,7 +254,12 @@ func (tm *TypeMap) HeapName(t types.Type, field string) string {
 	t = unalias(t)
 	if n, ok := t.(*types.Named); ok {
 		if st, ok := n.Underlying().(*types.Struct); ok {
-			return "H." + tm.canonStruct(n, st) + "." + field
+			cn := tm.canonStruct(n, st)
+			if n.Obj() != nil && n.Obj().Pkg() != nil {
+				tm.heapPkg["H."+cn+"."] = n.Obj().Pkg()
+				tm.heapPkg["HG."+shortTypeName(n)+"."] = n.Obj().Pkg()
+			}
+			return "H." + cn + "." + field
 		}
 	}
 	return "H." + shortTypeName(t) + "." + field
